@@ -410,7 +410,7 @@ func init() {
 
 func init() {
 	properties["C05"] = &property{
-		explanation: "Decides the 'never modify an operand that is not the receiver' clause of C05 by MODSET.mat — parameter write summaries of every function reachable from mat (SSA, level-sensitive points-to with escape summaries, VTA call graph, noasm bodies for the kernels): no exported function or method of mat may write through a matrix-typed parameter other than the receiver or a parameter named dst (187 parameters; accessor calls through the read-only Matrix interfaces are trusted not to write). It also decides the 'partial overlap panics instead of returning' mechanism of C05 for every exported pointer-receiver method of the overlap-aware mat types (Dense, VecDense, SymDense, TriDense, CDense and the band/diag/tridiag types; ...To(dst) methods use dst as destination): OVERLAP.guard — a forward must-analysis over each method's CFG proves that at every kernel write of the destination (blas64/lapack64/asm call, copy or Data store) every operand whose raw storage is read by that same statement has, on every path, passed a checkOverlap*/isolatedWorkspace guard, an identity test (recv == operand edge), the isolated-workspace edge (restore != nil), or delegation to a method that guards it; a failed type assertion makes the guard vacuous (no storage to compare). OVERLAP.iso — every isolatedWorkspace restore closure is deferred or called. OVERLAP.elemsize — in both the default and the safe build the address difference of two slices is divided by the size of exactly their element type. OVERLAP.symmetric — the two overlap predicates (checkOverlap, checkOverlapComplex) hand rectanglesOverlap only arguments that treat both operands alike, apart from the columns they swap explicitly (overlap is a symmetric relation; `a.Stride` for `min(a.Stride, b.Stride)` is reported); TWIN.shadow — checkOverlapComplex ('generate this file from shadow.go') is the image of checkOverlap. Copy/Clone methods (memmove semantics) are out of scope. Does NOT decide correctness of the modular arithmetic inside rectanglesOverlap and offset, Dense.Copy's direction choice, or generic At/set loops over operands of unknown type; user-defined Matrix implementations whose accessors write are outside MODSET's assumption.",
+		explanation: "Decides the 'never modify an operand that is not the receiver' clause of C05 by MODSET.mat — parameter write summaries of every function reachable from mat (SSA, level-sensitive points-to with escape summaries, VTA call graph, noasm bodies for the kernels): no exported function or method of mat may write through a matrix-typed parameter other than the receiver or a parameter named dst (187 parameters; accessor calls through the read-only Matrix interfaces are trusted not to write). It also decides the 'partial overlap panics instead of returning' mechanism of C05 for every exported pointer-receiver method of the overlap-aware mat types (Dense, VecDense, SymDense, TriDense, CDense and the band/diag/tridiag types; ...To(dst) methods use dst as destination): OVERLAP.guard — a forward must-analysis over each method's CFG proves that at every kernel write of the destination (blas64/lapack64/asm call, copy or Data store) every operand whose raw storage is read by that same statement has, on every path, passed a checkOverlap*/isolatedWorkspace guard, an identity test (recv == operand edge), the isolated-workspace edge (restore != nil), or delegation to a method that guards it; a failed type assertion makes the guard vacuous (no storage to compare). OVERLAP.iso — every isolatedWorkspace restore closure is deferred or called. OVERLAP.elemsize — in both the default and the safe build the address difference of two slices is divided by the size of exactly their element type. OVERLAP.symmetric — the two overlap predicates (checkOverlap, checkOverlapComplex) hand rectanglesOverlap only arguments that treat both operands alike, apart from the columns they swap explicitly (overlap is a symmetric relation; `a.Stride` for `min(a.Stride, b.Stride)` is reported); TWIN.shadow — checkOverlapComplex ('generate this file from shadow.go') is the image of checkOverlap. Copy/Clone methods (memmove semantics) are out of scope. Does NOT decide correctness of the modular arithmetic inside rectanglesOverlap and offset, Dense.Copy's direction choice, or generic At/set loops over operands of unknown type; user-defined Matrix implementations whose accessors write are outside MODSET's assumption. OVERLAP.extent — the storage offset returned by offset/offsetComplex is compared only with zero or with the storage length len(x.Data) of an operand, never with a logical element count, which ignores stride and increment.",
 		assumptions: commonAssumptions,
 		run: func(tier string, res *core.Result) {
 			r := overlap.Run(def)
@@ -429,6 +429,9 @@ func init() {
 				res.Merge(es)
 			}
 			res.Merge(overlap.RunSymmetric(def))
+			ex := overlap.RunExtent(def)
+			ex.Floor("offset_comparisons", 5)
+			res.Merge(ex)
 			sh := twin.Run(twin.Which{Shadow: true})
 			sh.Floor("shadow_twin_pairs", 1)
 			res.Merge(sh)
@@ -678,6 +681,7 @@ func dump(argv []string) {
 	case "elemsize":
 		res = overlap.RunElemSize(def)
 		res.Merge(overlap.RunElemSize(core.Config{Tags: "safe"}))
+		res.Merge(overlap.RunExtent(def))
 	case "paramuse":
 		res = paramuse.Run(def, core.Pkgs(argv[1:]...))
 		res.Merge(paramuse.Run(core.Config{Tags: "noasm"}, core.Pkgs(argv[1:]...)))
